@@ -5,6 +5,7 @@ import pyModeS as pms
 from ref import doc9871 as D
 from ref import frames
 from vlib import variants
+from vlib import volume
 from vlib.core import Leg, call
 
 PROPERTY = "C11"
@@ -135,48 +136,37 @@ def chk_cap17(case, note):
     return None
 
 
-def enum_volume(ctx):
-    # one process decodes more than 2^20 distinct frames, field after field (a receiver running for a few hours); one case = the whole run,
-    # so that a stored failing case replays with its history
-    per = 33000 if ctx.tier == "quick" else 70000
-    for k in range(ctx.nshards):
-        if ctx.mine(k):
-            yield {"n": per, "ctx_seed": ctx.rng("vol", k).getrandbits(40)}
+_VOLF = {}
 
 
-def chk_volume(case, note):
-    done = 0
-    for ri, row in enumerate(ROWS):
-        reg, name, ti, sb, sg, first, last, lsb, off, kind = row
-        fname, fn = fn_pair(row)[0]
-        nbits = last - first + 1
-        x = case["ctx_seed"] + ri
-        for k in range(case["n"]):
-            x = (x * 6364136223846793005 + 1442695040888963407) & 0xFFFFFFFFFFFFFFFF
-            y = (x ^ (x >> 29)) * 0xBF58476D1CE4E5B9 & 0xFFFFFFFFFFFFFFFF
-            mb = y >> 8
-            raw = (mb >> (56 - last)) & ((1 << nbits) - 1)
-            status = (mb >> (56 - sb)) & 1 if sb is not None else 1
-            sign = (mb >> (56 - sg)) & 1 if sg is not None else 0
-            msg = "%02X%06X%014X%06X" % (0xA0 | (x & 7), (x >> 3) & 0xFFFFFF, mb, (x >> 30) & 0xFFFFFF)
-            r = call(fn, msg)
-            done += 1
-            if r[0] != "ok":
-                return "%s(%s) raised %r (distinct frame number %d decoded by this process in this run)" % (fname, msg, r[1:], done)
-            v = r[1] if ti is None else (r[1][ti] if isinstance(r[1], tuple) and len(r[1]) == 2 else "not a pair: %r" % (r[1],))
-            exp = D.expected(row, raw, status, sign)
-            if not same(v, exp):
-                return "%s(%s)%s = %r (distinct frame number %d of this run); Doc 9871: MB bits %d-%d raw %d, status %s, sign %s -> %r" % (
-                    fname, msg, "" if ti is None else "[%d]" % ti, v, done, first, last, raw, status if sb else "-", sign if sg else "-", exp)
-        note.nt(True, key=["volume", ri, case["n"]])
-    note.evals = done
-    note.cls("volume")
+def vol_step(a, b, k):
+    ri = (a >> 2) % len(ROWS)          # the two lowest bits of a select DF / letter case: siblings are the same payload in another frame
+    row = ROWS[ri]
+    reg, name, ti, sb, sg, first, last, lsb, off, kind = row
+    if ri not in _VOLF:
+        _VOLF[ri] = fn_pair(row)[0]
+    fname, fn = _VOLF[ri]
+    nbits = last - first + 1
+    mb = b >> 8
+    raw = (mb >> (56 - last)) & ((1 << nbits) - 1)
+    status = (mb >> (56 - sb)) & 1 if sb is not None else 1
+    sign = (mb >> (56 - sg)) & 1 if sg is not None else 0
+    msg = "%02X%06X%014X%06X" % (0xA0 | ((a & 1) << 3) | ((a >> 8) & 7), (a >> 11) & 0xFFFFFF, mb, (a >> 35) & 0xFFFFFF)
+    if a & 2:
+        msg = msg.lower()
+    r = call(fn, msg)
+    if r[0] != "ok":
+        return "%s(%s) raised %r" % (fname, msg, r[1:])
+    v = r[1] if ti is None else (r[1][ti] if isinstance(r[1], tuple) and len(r[1]) == 2 else "not a pair: %r" % (r[1],))
+    exp = D.expected(row, raw, status, sign)
+    if not same(v, exp):
+        return "%s(%s)%s = %r; Doc 9871: MB bits %d-%d raw %d, status %s, sign %s -> %r" % (
+            fname, msg, "" if ti is None else "[%d]" % ti, v, first, last, raw, status if sb else "-", sign if sg else "-", exp)
     return None
 
 
 LEGS = [
     Leg("fields", chk_field, enum=enum_fields, exhaustive=True, doc="every raw value x status x sign of all 34 fields, random contexts"),
     Leg("cap17", chk_cap17, enum=enum_cap17, exhaustive=False, doc="GICB capability bits -> register list"),
-    Leg("volume", chk_volume, enum=enum_volume, exhaustive=False, shards_quick=1, shards_thorough=2,
-        doc="more than 2^20 distinct random frames decoded by one process (34 fields x 33 000 frames), each judged against the field table"),
+    volume.leg(vol_step, 1100000, 2400000, "more than 2^20 distinct random frames decoded by one process, every field decoder in turn, each judged against the field table; revisits and four concurrent callers at the end"),
 ]
